@@ -6,7 +6,7 @@ Line-protocol handlers for property C03 (and the shared trace decoding used by C
 A writer trace is a sequence of items, one per argument:
   `B0` / `B1`          `write_token_options(token, space_check)` begins
   `Tc:<hex>` `Tw:<hex>` `write_trivia` of a comment / whitespace
-  `K<line|->:<hex>`    the token's content and recorded line (`-` = none)
+  `K<line|->[@<s>-<e>]:<hex>` the token's content, recorded line (`-` = none) and source range
   `E`                  `write_token_options` ends
   `S0:<hex>` `S1:<hex>` `write_symbol_without_space_check` / `write_symbol`
   `P:<hex>`            direct `push_str`
@@ -51,7 +51,7 @@ private def bit (c : Char) : Option Bool :=
 /-- Decoder state: `cur = some (spaceCheck, leading, content?, trailing)` while inside `B … E`. -/
 structure Dec where
   items : List Item := []      -- reversed
-  cur : Option (Bool × List Trivia × Option (List UInt8 × Option Nat) × List Trivia) := none
+  cur : Option (Bool × List Trivia × Option (List UInt8 × Option Nat × Option (Nat × Nat)) × List Trivia) := none
 
 def decodeStep (d : Dec) (arg : String) : Option Dec :=
   match arg.toList with
@@ -61,9 +61,9 @@ def decodeStep (d : Dec) (arg : String) : Option Dec :=
     | _, _ => none
   | ['E'] =>
     match d.cur with
-    | some (sc, lead, some (content, line), trail) =>
+    | some (sc, lead, some (content, line, ref), trail) =>
       some { items := .tok { leading := lead.reverse, content := content, line := line,
-                             spaceCheck := sc, trailing := trail.reverse } :: d.items, cur := none }
+                             spaceCheck := sc, trailing := trail.reverse, ref := ref } :: d.items, cur := none }
     | _ => none
   | ['R'] =>
     match d.cur with
@@ -83,10 +83,22 @@ def decodeStep (d : Dec) (arg : String) : Option Dec :=
   | 'K' :: _ =>
     match splitColon arg with
     | some (l, h) =>
-      match parseLine (l.drop 1).toString, hexToBytes? h, d.cur with
-      | some line, some bs, some (sc, lead, none, trail) =>
-        some { d with cur := some (sc, lead, some (bs, line), trail) }
-      | _, _, _ => none
+      -- `K<line|->` or `K<line|->@<start>-<end>` (the content refers to that range of the source)
+      let (linePart, ref?) : String × Option (Option (Nat × Nat)) :=
+        match (l.drop 1).toString.splitOn "@" with
+        | [a] => (a, some none)
+        | [a, r] =>
+          match r.splitOn "-" with
+          | [x, y] =>
+            match x.toNat?, y.toNat? with
+            | some x, some y => (a, some (some (x, y)))
+            | _, _ => (a, none)
+          | _ => (a, none)
+        | _ => ("", none)
+      match parseLine linePart, hexToBytes? h, d.cur, ref? with
+      | some line, some bs, some (sc, lead, none, trail), some ref =>
+        some { d with cur := some (sc, lead, some (bs, line, ref), trail) }
+      | _, _, _, _ => none
     | none => none
   | 'S' :: b :: ':' :: _ =>
     match splitColon arg, bit b, d.cur with
@@ -126,10 +138,10 @@ def handle (op : String) (args : List String) : String :=
       match allToks is with
       | none =>
         let l := flatten is
-        s!"ok 0 {b01 (texts l == s)} {b01 (linesOk 0 l)} {b01 (commentsOk false l)} {b01 (h3 none l)}"
+        s!"ok 0 {b01 (texts l == s)} {b01 (linesOk 0 l)} {b01 (commentsOk false l)} {b01 (h3 none none l)}"
       | some ts =>
         let l := ops ts
-        s!"ok 1 {b01 (texts l == s)} {b01 (linesOk 0 l)} {b01 (commentsOk false l)} {b01 (h3 none l)}"
+        s!"ok 1 {b01 (texts l == s)} {b01 (linesOk 0 l)} {b01 (commentsOk false l)} {b01 (h3 none none l)}"
     | _, _ => "bad-args"
   | "brk", [a, b] =>
     match a.toNat?, b.toNat? with
